@@ -128,6 +128,12 @@ func (pa *peerAddrs) PopIfExpired(now time.Time) (*expiringAddr, bool) {
 
 func (pa *peerAddrs) Update(a *expiringAddr) {
 	if a.heapIndex == -1 {
+		// Connected addrs are kept out of the heap. One that has just left
+		// the connected TTL class now has a finite expiry and must be
+		// tracked, otherwise gc never collects it.
+		if !a.IsConnected() {
+			heap.Push(pa, a)
+		}
 		return
 	}
 	if a.IsConnected() {
